@@ -11,6 +11,7 @@ import (
 	"net/http"
 	"path"
 	"strconv"
+	"strings"
 	"sync"
 	"time"
 
@@ -406,7 +407,10 @@ func handleStream(svr interface{}, serviceName string, desc *grpc.StreamDesc, st
 			}
 			statProto := st.Proto()
 			tr.Code = statProto.Code
-			tr.Message = statProto.Message
+			// the trailer is a proto3 message, which cannot carry a string that
+			// is not valid UTF-8 (marshalling it would fail and the whole status
+			// would be lost); like the standard transport, substitute U+FFFD
+			tr.Message = strings.ToValidUTF8(statProto.Message, "\uFFFD")
 			tr.Details = statProto.Details
 		}
 
